@@ -47,11 +47,15 @@ def strictlySorted : List String → Bool
   | [_] => true
   | x :: y :: rest => decide (x < y) && strictlySorted (y :: rest)
 
-def isClosureOf (g : Graph) (roles out : List String) : Bool :=
+/-- the verdict, given the naive closure `nc` (computed once by the caller) -/
+def isClosureOfWith (nc : List String) (g : Graph) (roles out : List String) : Bool :=
   strictlySorted out
   && roles.all (fun r => decide (r ∈ out))
   && out.all (fun x => (parentsOf g x).all fun p => decide (p ∈ out))
-  && out.all (fun x => decide (x ∈ naiveClosure g roles))
+  && out.all (fun x => decide (x ∈ nc))
+
+def isClosureOf (g : Graph) (roles out : List String) : Bool :=
+  isClosureOfWith (naiveClosure g roles) g roles out
 
 /-! ### the verdict implies the property -/
 
@@ -145,7 +149,7 @@ theorem strictlySorted_pairwise {l : List String} (h : strictlySorted l = true) 
     reachable from the given ones -/
 theorem isClosureOf_sound (g : Graph) (roles out : List String) (h : isClosureOf g roles out = true) :
     out.Pairwise (· < ·) ∧ ∀ r, r ∈ out ↔ ∃ r₀ ∈ roles, Reach g r₀ r := by
-  simp only [isClosureOf, Bool.and_eq_true, List.all_eq_true, decide_eq_true_eq] at h
+  simp only [isClosureOf, isClosureOfWith, Bool.and_eq_true, List.all_eq_true, decide_eq_true_eq] at h
   obtain ⟨⟨⟨hsorted, hroots⟩, hclosed⟩, hmin⟩ := h
   refine ⟨strictlySorted_pairwise hsorted, fun r => ⟨fun hr => naiveClosure_sound g roles r (hmin r hr), ?_⟩⟩
   rintro ⟨r₀, h0, hr⟩
@@ -306,7 +310,7 @@ theorem pairwise_strictlySorted {l : List String} (h : l.Pairwise (· < ·)) : s
 /-- conversely, the strictly sorted enumeration of the closure is accepted -/
 theorem isClosureOf_complete (g : Graph) (roles out : List String) (hs : out.Pairwise (· < ·))
     (hm : ∀ r, r ∈ out ↔ ∃ r₀ ∈ roles, Reach g r₀ r) : isClosureOf g roles out = true := by
-  simp only [isClosureOf, Bool.and_eq_true, List.all_eq_true, decide_eq_true_eq]
+  simp only [isClosureOf, isClosureOfWith, Bool.and_eq_true, List.all_eq_true, decide_eq_true_eq]
   refine ⟨⟨⟨pairwise_strictlySorted hs, ?_⟩, ?_⟩, ?_⟩
   · intro r hr; exact (hm r).mpr ⟨r, hr, Reach.refl r⟩
   · intro x hx p hp
